@@ -310,6 +310,9 @@ def run(ctx, rep_):
     class_callable_only_from_module(F, rep_)
     loop_counter_type(F, rep_)
     names_have_element_types(F, rep_)
+    # a name is one variable per function at run time: the declaration parsers ask for an existing binding function-wide (shared with C10)
+    from props import C10 as _c10
+    _c10.existence_is_asked_function_wide(F, rep_, rule="C02.scope-extent")
     # `x[i]` on an accepted type is compiled to the access that fits the run-time kind of x (shared with C13)
     from props import C13 as _c13
     _c13.index_dispatch(F, rep_, rule="C02.index-dispatch")
